@@ -779,7 +779,7 @@ pub fn run_check_mode<K: Check>(k: &K, tier: Tier, runs_override: Option<u64>, i
             "probe_warnings": warnings,
             "known_finding_occurrences": kc.iter().map(|(c, (n, _))| (c.clone(), json!(n))).collect::<serde_json::Map<String, J>>(),
             "components": {
-                "real": ["TagIterator", "TagWriter", "nonblocking::TagIteratorAsync + into_stream", "tools", "spec_util", "easy_ebml!-generated StaticSpec (part of the runs)"],
+                "real": ["TagIterator", "TagWriter", "nonblocking::TagIteratorAsync + into_stream", "tools", "spec_util", "easy_ebml!-generated StaticSpec and StaticSpec2 (part of the runs)"],
                 "stub": ["std::io::Read source (SimReader)", "std::io::Write sink (SimWriter)", "futures::AsyncRead source + single-threaded executor", "runtime specification table behind DTag", "API-call driver", "counting global allocator (C17)"]
             },
             "workers": nthreads,
